@@ -55,16 +55,9 @@ def applyTakerFee (amount : Int) (fee : Dec) (isAdd : Bool) : Option (Int × Int
   if newAmt ≤ 0 ∨ feeAmt ≤ 0 then none else some (newAmt, feeAmt)
 
 /-- `BondingCurve.TokensForExactInAmount(currX, spendAmt)`; `none` = error.
-    startingX = ScaleFromBase(currX, 18), spendTokens = ScaleFromBase(spendAmt, L) -/
+    startingX = ScaleFromBase(currX, 18), spendTokens = ScaleFromBase(spendAmt, L); the Newton result
+    (decimal rollapp tokens) is converted to base units with the SUPPLY decimals (18). -/
 def tokensForExactIn (T : Int → Int → Option Int) (L : Nat) (currX spendAmt : Int) : Option Int :=
-  if (scaleFromBase currX 18).raw < decP then none
-  else if spendAmt ≤ 0 then none
-  else match T (scaleFromBase currX 18).raw (scaleFromBase spendAmt L).raw with
-    | none => none
-    | some x => some (scaleToBase ⟨x⟩ L)       -- scaled by the LIQUIDITY decimals, as the code does
-
-/-- the same with the result scaled by the supply decimals (18) — what the code should do (F5) -/
-def tokensForExactInFixed (T : Int → Int → Option Int) (L : Nat) (currX spendAmt : Int) : Option Int :=
   if (scaleFromBase currX 18).raw < decP then none
   else if spendAmt ≤ 0 then none
   else match T (scaleFromBase currX 18).raw (scaleFromBase spendAmt L).raw with
@@ -93,9 +86,9 @@ structure Vest where
   deriving Repr, Inhabited
 
 /-- the vesting scalar applied to the amount: `s.Mul(Amount).TruncateInt()` with
-    `s = NewDec(x).Quo(NewDec(y))` (both roundings are the SDK's half-even ones) -/
+    `s = NewDec(x).QuoTruncate(NewDec(y))` (the ratio is truncated, the `Mul` by an integer is exact) -/
 def vestedTotal (v : Vest) (now : Int) : Int :=
-  let s := (Dec.ofInt (now - v.start)).quo (Dec.ofInt (v.stop - v.start))
+  let s := (Dec.ofInt (now - v.start)).quoTruncate (Dec.ofInt (v.stop - v.start))
   (s.mul (Dec.ofInt v.amount)).truncateInt
 
 /-- `IROVestingPlan.VestedAmt(currTime)`; `none` = panic (division by zero) -/
@@ -206,7 +199,9 @@ def createOk (I : Int → Int) (st : State) (alloc mRaw nRaw cRaw : Int) (L : Na
   -- Plan.ValidateBasic
   planStart enabled startTime st.now ≤ planPre enabled (planStart enabled startTime st.now) planDur ∧
   0 < findEquilibrium mRaw nRaw alloc liqPart ∧ findEquilibrium mRaw nRaw alloc liqPart ≤ alloc ∧
-  -- Keeper.CreatePlan: the creation fee is charged as a purchase of `creationFee` tokens
+  -- Keeper.CreatePlan: the creation fee is charged as a purchase of `creationFee` tokens, which must
+  -- fit into the sellable amount
+  st.cfg.creationFee ≤ findEquilibrium mRaw nRaw alloc liqPart ∧
   0 < cost I L 0 st.cfg.creationFee ∧ cost I L 0 st.cfg.creationFee ≤ st.liq 0
 
 instance (I : Int → Int) (st : State) (alloc mRaw nRaw cRaw : Int) (L : Nat) (enabled : Bool)
